@@ -205,6 +205,13 @@ func c02R2(c *Ctx) {
 		} else {
 			p := c.iterationSkips(li, isConnectCall)
 			c.verdict(p == nil, rule, key, c.blockPos(li.Header), "every dependency path is connected (or the function returns an error)", "a dependency reported by the expression can be skipped without a DAG connection: the consumer may run before that producer", p...)
+			er := c.earlySuccessReturn(li)
+			c.verdict(er == nil, rule, key+"#no-early-success", c.blockPos(li.Header), "the loop over the dependencies is only left early with an error", "the loop over the expression's dependencies can be left with a nil error before all dependencies were connected (e.g. on an already existing connection): the remaining references get no DAG edge and the consumer can run before those producers", fmt.Sprint(func() string {
+				if er != nil {
+					return "return at " + c.instrPos(er)
+				}
+				return ""
+			}()))
 		}
 		// tolerated error: only ErrConnectionAlreadyExists — every `err != nil` after a Connect returns unless errors.As matched
 		n := 0
@@ -242,13 +249,15 @@ func c02R2(c *Ctx) {
 	// (b) NextStages loop
 	if fn := c.Fn("(*workflow.executor).connectStepDependencies"); fn != nil {
 		nsF := c.field(pkgStep, "LifecycleStage", "NextStages")
-		li := loopOver(fn, func(v ssa.Value) bool { return nsF != nil && derivesFrom(v, func(x ssa.Value) bool { return loadedField(x) == nsF }) })
+		li := loopOver(fn, func(v ssa.Value) bool {
+			return nsF != nil && derivesFrom(v, func(x ssa.Value) bool { return loadedField(x) == nsF })
+		})
 		key := "nextstages-loop@" + c.fnName(fn)
 		if li == nil {
 			c.undecided(rule, key, c.pos(fn.Pos()), "loop over stage.NextStages not found")
 		} else {
 			p := c.iterationSkips(li, isConnectCall)
-			c.verdict(p == nil, rule, key, c.blockPos(li.Header), "every declared next stage is connected", "a lifecycle ordering edge can be skipped: a later stage of the step could be given input before the earlier one finished", p...)
+			c.verdict(p == nil && c.earlySuccessReturn(li) == nil, rule, key, c.blockPos(li.Header), "every declared next stage is connected", "a lifecycle ordering edge can be skipped (or the loop left early without error): a later stage of the step could be given input before the earlier one finished", p...)
 			// the dependency type passed is the map value of the iteration
 			okType := false
 			eachInstr(fn, func(r instrRef) {
@@ -276,7 +285,7 @@ func c02R2(c *Ctx) {
 				call, ok := in.(*ssa.Call)
 				return ok && call.Common().StaticCallee() == prep
 			})
-			c.verdict(p1 == nil && p2 == nil, rule, key, c.blockPos(li.Header), "every option is connected and walked", "a one-of option can be skipped (no OR connection or no dependency walk)", append(p1, p2...)...)
+			c.verdict(p1 == nil && p2 == nil && c.earlySuccessReturn(li) == nil, rule, key, c.blockPos(li.Header), "every option is connected and walked", "a one-of option can be skipped (no OR connection, no dependency walk, or the loop left early without error)", append(p1, p2...)...)
 		}
 	}
 }
@@ -295,13 +304,15 @@ func c02R3(c *Ctx) {
 	}
 	if fn := c.Fn("(*workflow.executor).connectStepDependencies"); fn != nil {
 		ifF := c.field(pkgStep, "LifecycleStage", "InputFields")
-		li := loopOver(fn, func(v ssa.Value) bool { return ifF != nil && derivesFrom(v, func(x ssa.Value) bool { return loadedField(x) == ifF }) })
+		li := loopOver(fn, func(v ssa.Value) bool {
+			return ifF != nil && derivesFrom(v, func(x ssa.Value) bool { return loadedField(x) == ifF })
+		})
 		key := "inputfields-loop@" + c.fnName(fn)
 		if li == nil {
 			c.undecided(rule, key, c.pos(fn.Pos()), "loop over stage.InputFields not found")
 		} else {
 			p := c.iterationSkips(li, isPrep)
-			c.verdict(p == nil, rule, key, c.blockPos(li.Header), "every input field is walked for dependencies", "an input field can be skipped by the dependency walk: its expressions are evaluated without waiting for their sources", p...)
+			c.verdict(p == nil && c.earlySuccessReturn(li) == nil, rule, key, c.blockPos(li.Header), "every input field is walked for dependencies", "an input field can be skipped by the dependency walk (or the loop left early without error): its expressions are evaluated without waiting for their sources", p...)
 			// same value stored and walked
 			var walked, stored ssa.Value
 			var mu *ssa.MapUpdate
@@ -342,7 +353,7 @@ func c02R3(c *Ctx) {
 			c.undecided(rule, key, c.pos(fn.Pos()), "loop over workflow.Outputs not found")
 		} else {
 			p := c.iterationSkips(li, isPrep)
-			c.verdict(p == nil, rule, key, c.blockPos(li.Header), "every workflow output is walked for dependencies (or Prepare fails)", "a workflow output can be skipped by the dependency walk", p...)
+			c.verdict(p == nil && c.earlySuccessReturn(li) == nil, rule, key, c.blockPos(li.Header), "every workflow output is walked for dependencies (or Prepare fails)", "a workflow output can be skipped by the dependency walk (or the loop left early without error)", p...)
 			// the node passed is the one just added; the data walked is the DAG item's Data
 			okNode := false
 			eachInstr(fn, func(r instrRef) {
@@ -459,6 +470,68 @@ func c02R4(c *Ctx) {
 		// the key path of the store: data[steps][stepID][*previousStage][*previousStageOutputID]
 	})
 	c.minCount(rule, "stage-output resolutions in onStageComplete", n, 1)
+	// publication path: the value goes to data[steps][stepID][*previousStage][*previousStageOutputID]; the only other
+	// store replaces that one stage's entry with a fresh map (never the whole step entry, which holds the outputs of
+	// the step's earlier stages)
+	dataF := c.fLoop("data")
+	var stepIDp, prevStage ssa.Value
+	for _, p := range fn.Params {
+		switch p.Name() {
+		case "stepID":
+			stepIDp = p
+		case "previousStage":
+			prevStage = p
+		}
+	}
+	keyPath := func(m ssa.Value) []ssa.Value {
+		var keys []ssa.Value
+		v := m
+		for i := 0; i < 12; i++ {
+			switch x := v.(type) {
+			case *ssa.TypeAssert:
+				v = x.X
+				continue
+			case *ssa.Lookup:
+				keys = append([]ssa.Value{x.Index}, keys...)
+				v = x.X
+				continue
+			case *ssa.Extract:
+				v = x.Tuple
+				continue
+			}
+			break
+		}
+		if loadedField(v) != dataF {
+			return nil
+		}
+		return keys
+	}
+	nPub := 0
+	eachInstr(fn, func(r instrRef) {
+		mu, ok := r.I.(*ssa.MapUpdate)
+		if !ok {
+			return
+		}
+		keys := keyPath(mu.Map)
+		if keys == nil {
+			return
+		}
+		nPub++
+		full := append(append([]ssa.Value{}, keys...), mu.Key)
+		key := fmt.Sprintf("publication-path@%s#%d", c.fnName(fn), nPub)
+		okPrefix := len(full) >= 3 && isConstStr(full[0], "steps") && derivesFrom(full[1], isValue(stepIDp)) && derivesFrom(full[2], isValue(prevStage))
+		switch {
+		case okPrefix && len(full) == 3:
+			// resets this stage's entry
+			_, fresh := mu.Value.(*ssa.MakeInterface)
+			c.verdict(fresh, rule, key, c.instrPos(mu), "resets only data[steps][step][stage]", "the stage entry is overwritten with a non-fresh value")
+		case okPrefix && len(full) == 4:
+			c.verdict(derivesFrom(full[3], isValue(outID)) && derivesFrom(mu.Value, isValue(outVal)), rule, key, c.instrPos(mu), "stores the output at data[steps][step][stage][output]", "the value stored at depth 4 of the data model is not the produced output under its output id")
+		default:
+			c.bad(rule, key, c.instrPos(mu), fmt.Sprintf("onStageComplete writes the data model at depth %d / under the wrong keys: expressions read $.steps.<step>.<stage>.<output>, so the produced value must be stored exactly there and nothing above that level may be replaced (a replaced step entry loses the outputs of the step's earlier stages)", len(full)))
+		}
+	})
+	c.minCount(rule, "data model stores in onStageComplete", nPub, 2)
 }
 
 // C02.R5 lock coverage of the DAG/data-model helpers.
@@ -537,7 +610,9 @@ func c02R6(c *Ctx) {
 		argOK := false
 		if resCall != nil {
 			a := callArgs(resCall.Common())
-			argOK = derivesFrom(a[0], func(x ssa.Value) bool { return loadedField(x) == dataF && item != nil && sameItem(baseOfFieldLoad(x), item) }) && loadedField(a[1]) == dmF
+			argOK = derivesFrom(a[0], func(x ssa.Value) bool {
+				return loadedField(x) == dataF && item != nil && sameItem(baseOfFieldLoad(x), item)
+			}) && loadedField(a[1]) == dmF
 		}
 		// validation dominance
 		valOK := false
